@@ -241,7 +241,14 @@ func VerifC05AddRewards() {
 			symx.Assume(den > 0 && num <= den)
 			err = w.state.AddRewardSingleAttenuated(w.ctx, vEpoch, factor, num, den, w.addrs[w.escrow])
 		} else {
-			err = w.state.AddRewards(w.ctx, vEpoch, factor, []staking.Address{w.addrs[w.escrow]})
+			addrs := []staking.Address{w.addrs[w.escrow]}
+			switch symx.Cfg("pool2", 0)*(1+symx.Cfg("order", 0)) {
+			case 1: // two rewarded entities, E first
+				addrs = append(addrs, w.addrs[1])
+			case 2: // B first
+				addrs = []staking.Address{w.addrs[1], w.addrs[w.escrow]}
+			}
+			err = w.state.AddRewards(w.ctx, vEpoch, factor, addrs)
 		}
 		symx.Assert(err == nil, "reward distribution failed (would halt the chain)")
 		return nil, err
